@@ -13,6 +13,7 @@ import multi_session as ms
 import prudp_session as ps
 import c07_multiport as mpo
 import c07_writefail as wf
+import c07_forgedack as fa
 import l1_trace
 import l1_stream
 from sim import ticks, quant
@@ -289,8 +290,11 @@ def work_inner(args):
             st = mpo.stats(att)
             st.update(inj=st["multi_port_reads"] + st["forged"] + st["third_reads"], decodes=st["reads"], rejected=0)
             return idx, specd, seed, atk, mpo.judge(att), att, st, None
-        ref = ms.run(spec, seed, None)
-        if atk[0] == "writefail-dg":
+        # (forged acknowledgements + loss: the loss of the victims' own packets is part of the reference run as well)
+        ref = ms.run(spec, seed, fa.setup(atk[1], False) if atk[0] == "forgedack" else None)
+        if atk[0] == "forgedack":
+            att = ms.run(spec, seed, fa.setup(atk[1], True))
+        elif atk[0] == "writefail-dg":
             att = ms.run(spec, seed, wf.datagram_attack(atk[1]))
         elif atk[0] == "writefail-st":
             att = ms.run(spec, seed, wf.stream_attack(atk[1]))
@@ -334,6 +338,11 @@ def work_inner(args):
                 bad.append(("reconnect-setup", "the reconnecting peer never reconnected: %r" % (rr,)))
         if atk[0] in ("writefail-dg", "writefail-st") and not getattr(att, "write_failures", 0) and not (atk[0] == "writefail-st" and atk[1]["kind"] == "syn-close"):
             bad.append(("writefail-setup", "no write of the server failed in this run"))
+        if atk[0] == "forgedack":
+            if not getattr(att, "injected", 0):
+                bad.append(("forgedack-setup", "no forged acknowledgement was sent in this run"))
+            if atk[1].get("lose") and (not getattr(ref, "lost", None) or ref.lost != getattr(att, "lost", None)) and not diff:
+                bad.append(("forgedack-setup", "the victims' own packets were not lost alike in both runs: reference %r / attacked %r" % (getattr(ref, "lost", None), getattr(att, "lost", None))))
         if atk[0] == "flood" and att.flood_sent < atk[1]["n"]:
             bad.append(("flood-setup", "the flooding peer could send only %d of %d messages (%s)" % (att.flood_sent, atk[1]["n"], getattr(att, "flood_error", None))))
         if diff:
@@ -362,7 +371,7 @@ def work_inner(args):
                     break
         # ... and no other state either: once every connection has ended, every container reachable from the transport object is
         # as large as in the run without the hostile traffic
-        if atk[0] in ("datagram", "probe") and spec.transport == "udp" and not [b for b in bad if b[0] in ("crash", "reference")]:   # (a hostile stream connection that is still open IS state)
+        if atk[0] in ("datagram", "probe", "forgedack") and spec.transport == "udp" and not [b for b in bad if b[0] in ("crash", "reference")]:   # (a hostile stream connection that is still open IS state)
             grown = {k: (ref.census.get(k, 0), v) for k, v in att.census.items() if v > ref.census.get(k, 0)}
             if grown:
                 k = sorted(grown)[0]
@@ -374,6 +383,8 @@ def work_inner(args):
                 bad.append(("work", "a read of %d bytes decoded %d packets" % (ln, pk)))
                 break
         stats = {"inj": getattr(att, "injected", 0), "decodes": len(att.decodes), "rejected": sum(1 for _, p in att.decodes if p < 0)}
+        if atk[0] == "forgedack":
+            stats.update(forged=dict(att.forged), lost=dict(att.lost))
         return idx, specd, seed, atk, bad, att, stats, None
     except Exception:
         return idx, specd, seed, atk, [], None, {}, traceback.format_exc()
@@ -411,6 +422,7 @@ def run(ctx):
                 "announced length), or uses the ordinary client against (port, stream type) pairs nobody serves, or is a perfectly valid further peer whose handler is busy and who sends 150..300 messages nobody reads, or a valid peer that closes and reconnects at once from the same address and port while the server's handler of the closed connection is still in its teardown; oracle: non-interference, delivery only on the addressed connection/port, no server state for "
                 "unknown peers, bounded decode work; the server transport of every datagram run is replayed through the Lean L1 model; "
                 "also: one read that carries packets for several virtual ports (a client transport with a connection to each of 2..3 bound ports, everything written within 2 ms aggregated into one datagram / stream read in both directions, forged packets for unbound ports behind / in front of / between the genuine ones, third parties' reads mixing requests for bound and unbound ports in every order; direct oracles: own echoes only, nothing lost, answers only by the addressed ports, no state), and a transport whose write fails for one peer (sendto raising for an address, stream peers resetting before the answer to SYN / CONNECT is written); "
+                "and forged acknowledgements combined with loss: packets with the peer's address that name the victim's in-flight packets (type, substream, predictable sequence id; FLAG_ACK or aggregate acknowledgement) with signatures that are garbage / copied / wrongly keyed, to clients and to the server, while the first transmission of the genuine packet or of its acknowledgement is lost in both runs; "
                 "distinct non-trivial = injected hostile datagrams")
     jobs = []
     n = 0
@@ -499,6 +511,26 @@ def run(ctx):
         for cfg in (dict(kind="syn-close"), dict(kind="syn-close", copies=3), dict(kind="break", at=1), dict(kind="break", at=2)):
             for r in range(1 if quick else 3):
                 jobs.append((n, sp, ctx.rng.getrandbits(32), ("writefail-st", dict(cfg, n=ctx.rng.choice([3, 5]), every=ctx.rng.choice([0.125, 0.3125]), start=ctx.rng.choice([0.0625, 0.25]), vport_index=r)))); n += 1
+    # forged acknowledgements COMBINED WITH LOSS (harness/c07_forgedack.py): a third party writes the address of the victim's peer into
+    # packets that name the victim's in-flight packets (type, substream, predictable sequence id; FLAG_ACK or an aggregate
+    # acknowledgement) with signatures the victim must not accept, towards the clients and towards the server, while the first
+    # transmission of the genuine packets (or of their acknowledgements) is lost — in the reference run as well
+    requests = ["syn", "connect", "data", "disconnect"]
+    for sp in dg_specs:
+        fsp = dict(sp, resend_timeout=0.25, rounds=3)
+        cfgs = [dict(lose=requests, share=100, per=4, to="both"),
+                dict(lose=["ack-" + k for k in requests], share=100, per=4, to="both")]
+        for r in range(1 if quick else 6):
+            k = ctx.rng.sample(requests, ctx.rng.randint(1, 3))
+            cfgs.append(dict(lose=sorted(k + ["ack-" + x for x in ctx.rng.sample(requests, 2)]), share=ctx.rng.choice([50, 100]),
+                             per=ctx.rng.choice([2, 4, 6]), to=ctx.rng.choice(["client", "server", "both"])))
+        for j, cfg in enumerate(cfgs):
+            if j >= 2 and (j == 2 or ctx.rng.random() < 0.4):
+                # keep-alive requests in flight as well (their ids are predictable too): a short ping interval, PINGs / their acknowledgements lost once
+                cfg["lose"] = sorted(cfg["lose"] + ["ping", "ack-ping"])
+                jobs.append((n, dict(fsp, ping_timeout=0.4375), ctx.rng.getrandbits(32), ("forgedack", cfg))); n += 1
+                continue
+            jobs.append((n, fsp, ctx.rng.getrandbits(32), ("forgedack", cfg))); n += 1
     drv = ctx.driver("C02")
     ndiff, first = 0, None
     with multiprocessing.Pool(min(16, os.cpu_count() or 4)) as pool:
@@ -507,7 +539,7 @@ def run(ctx):
                 ctx.corr_break("c07-session-harness", "session crashed in the harness", {"traceback": err, "spec": specd, "attack": atk})
                 continue
             for key, what in bad:
-                ctx.violation("c07:%s:%s" % (key, specd.get("transport", "udp") + (":" + atk[1] if atk[0] == "stream" else "") + (":flood" if atk[0] == "flood" else "") + (":probe" if atk[0] == "probe" else "") + (":reconnect" if atk[0] == "reconnect" else "") + (":" + atk[0] if atk[0] in ("multiport", "writefail-dg", "writefail-st") else "")), what,
+                ctx.violation("c07:%s:%s" % (key, specd.get("transport", "udp") + (":" + atk[1] if atk[0] == "stream" else "") + (":flood" if atk[0] == "flood" else "") + (":probe" if atk[0] == "probe" else "") + (":reconnect" if atk[0] == "reconnect" else "") + (":" + atk[0] if atk[0] in ("multiport", "writefail-dg", "writefail-st", "forgedack") else "")), what,
                               {"spec": specd, "attack": atk, "seed": seed, "how": "harness/corr_C07.py work((0, spec, seed, attack))"})
             if att is not None and specd.get("transport") == "lite":
                 # stream transports: the server transport replayed through L1 from the stream reads / writes (harness/l1_stream.py)
@@ -538,6 +570,14 @@ def run(ctx):
                 ctx.tag("%s:one-read-several-ports" % specd.get("transport", "udp"), stats.get("multi_port_reads", 0))
                 ctx.tag("%s:forged-for-unbound-port-in-genuine-read:%s" % (specd.get("transport", "udp"), atk[1]["splice"]), stats.get("forged", 0))
                 ctx.tag("%s:third-party-read-bound+unbound" % specd.get("transport", "udp"), stats.get("third_reads", 0))
+            elif atk[0] == "forgedack":
+                for lab, cnt in stats.get("forged", {}).items():
+                    a = lab.split(":")
+                    ctx.tag("udp:forged-ack+loss:%s:in-flight-%s" % (a[0], a[1]), cnt)
+                    ctx.tag("udp:forged-ack+loss:shape:%s" % a[2], cnt)
+                    ctx.tag("udp:forged-ack+loss:signature:%s" % a[3], cnt)
+                for kind, cnt in stats.get("lost", {}).items():
+                    ctx.tag("udp:forged-ack+loss:genuine-first-transmission-lost:%s" % kind, cnt)
             elif atk[0] in ("writefail-dg", "writefail-st"):
                 ctx.tag("%s:write-fails-for-one-peer:%s" % (specd.get("transport", "udp"), atk[1].get("kind", "sendto-raises") + (str(atk[1]["at"]) if "at" in atk[1] else "")), stats.get("inj", 0))
             else:
